@@ -76,11 +76,12 @@ theorem parseMiddle_serializeMiddle (plus : Bool) (a acc : Annotation) (hc : can
   obtain ⟨⟨⟨⟨⟨⟨⟨⟨⟨⟨⟨_, hAA⟩, _⟩, _⟩, _⟩, _⟩, _⟩, hD⟩, hL⟩, _⟩, _⟩, _⟩ := hc
   exact parseMiddle_serializeMiddle' plus a acc hAA hD hL h1 h2 h3 tail htail
 
-/-- `_parse_sequence_end` reads back charge and adducts, up to the end of the input or the `+` of the next chain -/
+/-- `_parse_sequence_end` reads back charge and adducts, up to the end of the input or the `+` / `//` that starts the next
+chain (`stopConn` = the connection flag set by the joiner, `stopRest` = the input after it) -/
 theorem parseEnd_serializeEnd (plus : Bool) (a : Annotation) (ha0 : a.adducts = none) (conn : Option Bool) (ch : Int)
     (ad : Option (List Mod)) (had : canonAdducts (some ch) ad = true) (rest : List Char) (hrest : ChainStop rest) :
     parseEnd a conn ('/' :: (intText ch ++ (optMods '[' ']' plus ad ++ rest))) =
-      .ok ({ a with charge := some ch, adducts := ad }, (if rest = [] then conn else some false), rest.tail) := by
+      .ok ({ a with charge := some ch, adducts := ad }, stopConn conn rest, stopRest rest) := by
   rw [parseEnd_charge plus a ha0 conn ch ad had rest hrest, parseEnd_stop _ _ _ hrest]
 
 /-! ## 3. whole annotations -/
@@ -93,7 +94,7 @@ theorem parse_serialize (plus : Bool) (a : Annotation) (hc : canon a = true) :
     simp only [canon, Bool.and_eq_true, Bool.not_eq_eq_eq_not, Bool.not_true] at hc
     intro h; rw [h] at hc; simp at hc
   have hchain := parseChains_chain plus a hc none [] (Or.inl rfl)
-  simp only [List.append_nil, ↓reduceIte, List.tail_nil] at hchain
+  simp only [List.append_nil, stopConn, stopRest] at hchain
   have hnil : parseChains true none [] = .ok [] := by rw [parseChains.eq_def]
   rw [hnil] at hchain
   unfold parse
@@ -149,6 +150,35 @@ theorem parse_serialize_multi_partial (plus : Bool) (as : List Annotation) (h2 :
         rw [hr] at h1 h2
         simp only
         rw [h1, h2]
+
+/-- **Reading side, any joiners.** For any number ≥ 2 of canonical chains and any connection flags, the text with `+` for
+`False` and `//` for `True` parses to exactly these chains and flags: the parser treats crosslinks correctly, so the
+known finding below is confined to the serializer's joiner. -/
+theorem parse_joined (plus : Bool) (as : List Annotation) (h2 : as.length ≥ 2) (hc : as.all canon = true)
+    (flags : List Bool) (hl : flags.length + 1 = as.length) :
+    parse true (joinedText plus as flags) = .ok (.multi as (flags.map some)) := by
+  match as, h2 with
+  | a :: b :: t, _ =>
+    unfold parse
+    rw [joinedText_not_unmodified]
+    simp only [Bool.false_eq_true, ↓reduceIte]
+    rw [parseChains_joined plus (a :: b :: t) (by simp) hc flags none]
+    have h1 := joinedResult_fst none (a :: b :: t) flags
+    have h3 := joinedResult_snd none (a :: b :: t) flags hl
+    cases hr : joinedResult none (a :: b :: t) flags with
+    | nil => exact absurd hr (joinedResult_ne_nil _ _ _ _)
+    | cons p q =>
+      cases q with
+      | nil =>
+        rw [hr] at h1
+        simp at h1
+      | cons p2 q2 =>
+        rw [hr] at h1 h3
+        simp only
+        rw [h1, h3]
+
+example : joinedText false [{ seq := "PEP".toList }, { seq := "TIDE".toList, charge := some 2 }, { seq := "K".toList }]
+    [true, false] = "PEP//TIDE/2+K".toList := by decide +kernel
 
 /-- The full statement (any connection flags) is FALSE for the current code: `MultiProFormaAnnotation.serialize` writes a
 crosslink as two backslashes, which the parser rejects, while it reads `//` (KF-C01-crosslink-backslash; pinned by
